@@ -631,7 +631,243 @@ theorem makeOrKnown_sound (isList : Bool) (os : List Obj) (ts : List Ty)
     have hp := pyEqList_of_R2_known os ks h
     cases isList <;> simp [mem, Obj.same, Obj.tag, Obj.pyEq, hp]
 
+/-! ## 6b. iterable unpacking -/
+
+theorem R2_replicate_any : ∀ (os : List Obj) (n : Nat), os.length = n →
+    R2 (fun x t => mem tb x t) os (List.replicate n Ty.any) = true
+  | [], n, h => by subst h; rfl
+  | o :: os, n, h => by
+    subst h
+    simp [List.replicate, R2, mem, R2_replicate_any os os.length rfl]
+
+theorem R2_replicate (t : Ty) : ∀ (os : List Obj) (n : Nat), os.length = n → memAll tb os t = true →
+    R2 (fun x t => mem tb x t) os (List.replicate n t) = true
+  | [], n, h, _ => by subst h; rfl
+  | o :: os, n, h, hm => by
+    subst h
+    simp only [memAll, Bool.and_eq_true] at hm
+    simp [List.replicate, R2, hm.1, R2_replicate t os os.length rfl hm.2]
+
+theorem R2_known_of_pyEq : ∀ (ys xs : List Obj), R2 Obj.pyEq ys xs = true →
+    xs.any numLike = false → R2 (fun x t => mem tb x t) ys (xs.map Ty.known) = true
+  | [], [], _, _ => rfl
+  | y :: ys, x :: xs, h, hn => by
+    simp only [R2, Bool.and_eq_true] at h
+    simp only [List.any_cons, Bool.or_eq_false_iff] at hn
+    simp [R2, mem, same_of_pyEq y x h.1 hn.1, R2_known_of_pyEq ys xs h.2 hn.2]
+  | [], _ :: _, h, _ => by simp [R2] at h
+  | _ :: _, [], h, _ => by simp [R2] at h
+
+theorem any_known_numLike (xs : List Obj) :
+    (xs.map Ty.known).any (fun m => match m with | .known o => numLike o | _ => false) = xs.any numLike := by
+  induction xs with
+  | nil => rfl
+  | cons x xs ih => simp [ih]
+
+theorem iter_cls_facts :
+    sub tb C.str C.list = false ∧ sub tb C.str C.tuple = false ∧ sub tb C.bytes C.list = false ∧
+    sub tb C.bytes C.tuple = false ∧ sub tb C.set C.list = false ∧ sub tb C.set C.tuple = false ∧
+    sub tb C.frozenset C.list = false ∧ sub tb C.frozenset C.tuple = false ∧ sub tb C.dict C.list = false ∧
+    sub tb C.dict C.tuple = false := by decide +kernel
+
+/-- unpacking a member list without unpacked members: the cases `tuple` / `list` of `unpack1` -/
+theorem unpack_seq_sound (c : Cls) (ms : List Ty) (lit : Flags) (n : Nat) (os : List Obj) (hlen : os.length = n)
+    (hR : R2 (fun x t => mem tb x t) os ms = true) (vs : List Ty)
+    (h : (if c == C.tuple then (if ms.length == n then (some ms, lit) else (none, {}))
+      else if c == C.list then
+        (if ms.length == n then (some ms, lit)
+         else if ms.isEmpty then (some (List.replicate n .any), { frag := true })
+         else (some (List.replicate n (unite ms)),
+               { frag := ms.any (fun m => match m with | .any => true | _ => false) }))
+      else (some (List.replicate n .any), ({ frag := true } : Flags))).1 = some vs) :
+    R2 (fun x t => mem tb x t) os vs = true := by
+  have hl := R2_length _ os ms hR
+  have hn : ms.length = n := by omega
+  by_cases hc : c = C.tuple
+  · simp [hc, hn] at h
+    subst h; exact hR
+  · by_cases hc2 : c = C.list
+    · simp [hc2, hn, C.list, C.tuple] at h
+      subst h; exact hR
+    · simp [hc, hc2] at h
+      subst h; exact R2_replicate_any os n hlen
+
+theorem unpack1_sound (o : Obj) (v : Ty) (n : Nat) (os : List Obj) (hm : mem tb o v = true)
+    (hi : iterObj o = some os) (hlen : os.length = n) (hf : (unpack1 v n).2.none = true)
+    (vs : List Ty) (hv : (unpack1 v n).1 = some vs) : R2 (fun x t => mem tb x t) os vs = true := by
+  have hu := mem_unannot o v
+  rw [hm] at hu
+  unfold unpack1 replaceKnownSeq at hf hv
+  cases hk : unannot v with
+  | known k =>
+    rw [hk] at hu hf hv
+    simp only [mem] at hu
+    cases k with
+    | tuple xs =>
+      dsimp only at hf hv
+      cases o <;> simp [Obj.same, Obj.tag, Obj.pyEq] at hu
+      rename_i ys
+      simp only [iterObj, Option.some.injEq] at hi
+      subst hi
+      rw [pyEqList_eq_R2] at hu
+      have hl : xs.length = n := by have := R2_length _ ys xs hu; omega
+      simp [memberPairs_known, isKnown, any_known_numLike, hl, flags_none_iff, Function.comp_def] at hf hv
+      subst hv
+      exact R2_known_of_pyEq ys xs hu (Bool.eq_false_iff.mpr (by simpa using hf))
+    | list xs =>
+      dsimp only at hf hv
+      cases o <;> simp [Obj.same, Obj.tag, Obj.pyEq] at hu
+      rename_i ys
+      simp only [iterObj, Option.some.injEq] at hi
+      subst hi
+      rw [pyEqList_eq_R2] at hu
+      have hl : xs.length = n := by have := R2_length _ ys xs hu; omega
+      simp [memberPairs_known, isKnown, any_known_numLike, hl, flags_none_iff, Function.comp_def, C.list, C.tuple] at hf hv
+      subst hv
+      exact R2_known_of_pyEq ys xs hu (Bool.eq_false_iff.mpr (by simpa using hf))
+    | _ => simp at hv
+  | seq c ms =>
+    rw [hk] at hu hf hv
+    dsimp only at hf hv
+    simp only [mem, Bool.and_eq_true] at hu
+    have hys : ∃ ys, iterObj o = some ys ∧ matchSeq tb ys ms = true := by
+      cases o <;> simp [memSeq] at hu
+      · exact ⟨_, rfl, hu.2⟩
+      · exact ⟨_, rfl, hu.2⟩
+    obtain ⟨ys, hiy, hmatch⟩ := hys
+    rw [hi, Option.some.injEq] at hiy
+    subst hiy
+    by_cases hmany : (memberPairs ms).any (·.1) = true
+    · simp only [hmany, if_true, Option.some.injEq] at hv
+      subst hv; exact R2_replicate_any os n hlen
+    · have hmany' : (memberPairs ms).any (·.1) = false := by simpa using hmany
+      obtain ⟨_, h2⟩ := memberPairs_noMany ms hmany'
+      simp only [hmany', Bool.false_eq_true, if_false] at hv
+      exact unpack_seq_sound c ms _ n os hlen (by rw [← h2]; exact hmatch) vs hv
+  | generic c args =>
+    rw [hk] at hu hf hv
+    match args, hu, hf, hv with
+    | [t], hu, hf, hv =>
+      dsimp only at hf hv
+      by_cases hc : (c == C.list || c == C.tuple) = true
+      · simp only [hc, if_true, Option.some.injEq] at hv
+        subst hv
+        simp only [mem, Bool.and_eq_true] at hu
+        have hc' : c = C.list ∨ c = C.tuple := by simpa using hc
+        have hfacts := iter_cls_facts
+        cases o with
+        | tuple xs =>
+          simp only [iterObj, Option.some.injEq] at hi; subst hi
+          exact R2_replicate t _ n hlen (by simpa [memArgs] using hu.2)
+        | list xs =>
+          simp only [iterObj, Option.some.injEq] at hi; subst hi
+          exact R2_replicate t _ n hlen (by simpa [memArgs] using hu.2)
+        | str s => rcases hc' with rfl | rfl <;> simp_all [clsOf]
+        | bytes s => rcases hc' with rfl | rfl <;> simp_all [clsOf]
+        | set xs => rcases hc' with rfl | rfl <;> simp_all [clsOf]
+        | fset xs => rcases hc' with rfl | rfl <;> simp_all [clsOf]
+        | dict ks vs' => rcases hc' with rfl | rfl <;> simp_all [clsOf]
+        | _ => simp [iterObj] at hi
+      · simp [hc, flags_none_iff] at hf
+    | [], _, _, hv => simp at hv
+    | _ :: _ :: _, _, _, hv => simp at hv
+  | any =>
+    rw [hk] at hv
+    simp only [Option.some.injEq] at hv
+    subst hv; exact R2_replicate_any os n hlen
+  | _ => rw [hk] at hv; simp at hv
+
+theorem colsUnite_sound : ∀ (n : Nat) (os : List Obj) (rows : List (List Ty)) (row : List Ty),
+    row ∈ rows → os.length = n → R2 (fun x t => mem tb x t) os row = true →
+    R2 (fun x t => mem tb x t) os (colsUnite n rows) = true
+  | 0, os, rows, row, _, hl, _ => by
+    have : os = [] := List.length_eq_zero_iff.mp hl
+    subst this; rfl
+  | n + 1, [], _, _, _, hl, _ => by simp at hl
+  | n + 1, o :: os, rows, [], _, _, hR => by simp [R2] at hR
+  | n + 1, o :: os, rows, t :: row, hrow, hl, hR => by
+    simp only [R2, Bool.and_eq_true] at hR
+    simp only [colsUnite, R2, Bool.and_eq_true]
+    refine ⟨?_, colsUnite_sound n os (rows.map List.tail) row (List.mem_map.mpr ⟨_, hrow, rfl⟩) (by simpa using hl) hR.2⟩
+    rw [unite_mem']
+    exact List.any_eq_true.mpr ⟨t, List.mem_map.mpr ⟨_, hrow, rfl⟩, hR.1⟩
+
+theorem unpackL_some (n : Nat) : ∀ (ts : List Ty) (rows : List (List Ty)),
+    (unpackL n ts).1 = some rows → (unpackL n ts).2.none = true →
+    ∀ m ∈ ts, ∃ row ∈ rows, (unpack1 m n).1 = some row ∧ (unpack1 m n).2.none = true
+  | [], _, _, _ => by simp
+  | v :: ts, rows, h, hf => by
+    simp only [unpackL] at h hf
+    rw [flags_or_none] at hf
+    cases h1 : (unpack1 v n).1 with
+    | none => simp [h1] at h
+    | some x =>
+      cases h2 : (unpackL n ts).1 with
+      | none => simp [h1, h2] at h
+      | some xs =>
+        simp only [h1, h2, Option.some.injEq] at h
+        subst h
+        intro m hm
+        rcases List.mem_cons.mp hm with rfl | hm
+        · exact ⟨x, by simp, h1, hf.1⟩
+        · obtain ⟨row, hr, hh⟩ := unpackL_some n ts xs h2 hf.2 m hm
+          exact ⟨row, List.mem_cons_of_mem _ hr, hh⟩
+
+theorem unpackVals_sound (o : Obj) (v : Ty) (n : Nat) (os : List Obj) (hm : mem tb o v = true)
+    (hi : iterObj o = some os) (hlen : os.length = n) (hf : (unpackVals v n).2.none = true) :
+    R2 (fun x t => mem tb x t) os (unpackVals v n).1 = true := by
+  unfold unpackVals at hf ⊢
+  split at hf
+  · simp [mem, memAny] at hm
+  · rename_i ts _
+    simp only [mem] at hm
+    rw [memAny_eq_any] at hm
+    obtain ⟨m, hmm, hom⟩ := List.any_eq_true.mp hm
+    cases hu : unpackL n ts with
+    | mk r f =>
+      rw [hu] at hf
+      cases r with
+      | none => exact R2_replicate_any os n hlen
+      | some rows =>
+        dsimp only at hf ⊢
+        obtain ⟨row, hrow, h1, h2⟩ := unpackL_some n ts rows (by rw [hu]) (by rw [hu]; exact hf) m hmm
+        exact colsUnite_sound n os rows row hrow hlen (unpack1_sound o m n os hom hi hlen h2 row h1)
+  · cases hu : unpack1 v n with
+    | mk r f =>
+      rw [hu] at hf
+      cases r with
+      | none => exact R2_replicate_any os n hlen
+      | some vs =>
+        dsimp only at hf ⊢
+        exact unpack1_sound o v n os hm hi hlen (by rw [hu]; exact hf) vs (by rw [hu])
+
+theorem assignAll_keep : ∀ (xs : List Var) (vs : List Ty) (st : St),
+    (assignAll st xs vs).log = st.log ∧ (assignAll st xs vs).flags = st.flags
+  | [], _, st => by simp [assignAll]
+  | _ :: _, [], st => by simp [assignAll]
+  | x :: xs, v :: vs, st => by
+    simp only [assignAll]
+    exact assignAll_keep xs vs _
+
+theorem Inv_assignAll : ∀ (xs : List Var) (os : List Obj) (vs : List Ty) (env : Env) (st : St),
+    Inv env st.sc → R2 (fun x t => mem tb x t) os vs = true → Inv (setAll env xs os) (assignAll st xs vs).sc
+  | [], _, _, env, st, h, _ => by simpa [setAll, assignAll] using h
+  | x :: xs, [], [], env, st, h, _ => by simpa [setAll, assignAll] using h
+  | x :: xs, [], _ :: _, _, _, _, hR => by simp [R2] at hR
+  | x :: xs, _ :: _, [], _, _, _, hR => by simp [R2] at hR
+  | x :: xs, o :: os, v :: vs, env, st, h, hR => by
+    simp only [R2, Bool.and_eq_true] at hR
+    simp only [setAll, assignAll]
+    exact Inv_assignAll xs os vs _ _ (Inv_assign x o st.next v h hR.1) hR.2
+
+
 /-! ## 7. monotonicity of the inference state (log and flags only grow) -/
+
+/-- the assumption on the helper functions, as an instance so that the induction carries it along -/
+class ImplOkC (impl : Impl) (R : List Ty) : Prop where
+  ok : ImplOk impl R
+
+variable {impl : Impl} {R : List Ty}
 
 def St.le (a b : St) : Prop :=
   (∀ x, x ∈ a.log → x ∈ b.log) ∧ (b.flags.none = true → a.flags.none = true)
@@ -651,7 +887,7 @@ theorem St.le_log {a : St} (sc : Scope) (e : Path × Ty) (f : Flags) :
   ⟨fun x h => List.mem_append_left _ h, fun h => by simp only [flags_or_none] at h; exact h.1⟩
 
 mutual
-theorem inferExpr_le : ∀ (e : Expr) (st : St) (p : Path), St.le st (inferExpr st p e).2
+theorem inferExpr_le : ∀ (e : Expr) (st : St) (p : Path), St.le st (inferExpr R st p e).2
   | .lit o, st, p => by
     simp only [inferExpr]
     exact ⟨fun x h => List.mem_append_left _ h, fun h => h⟩
@@ -671,14 +907,17 @@ theorem inferExpr_le : ∀ (e : Expr) (st : St) (p : Path), St.le st (inferExpr 
     have h1 := St.le_lookup st t.var
     have h2 : St.le (st.lookup t.var).2 ((st.lookup t.var).2.addCon t.con.1 t.con.2) := St.le_of_eq rfl rfl
     have h3 := inferExpr_le a ((st.lookup t.var).2.addCon t.con.1 t.con.2) (1 :: p)
-    have h4 : St.le (inferExpr ((st.lookup t.var).2.addCon t.con.1 t.con.2) (1 :: p) a).2
-        ({ (inferExpr ((st.lookup t.var).2.addCon t.con.1 t.con.2) (1 :: p) a).2 with
+    have h4 : St.le (inferExpr R ((st.lookup t.var).2.addCon t.con.1 t.con.2) (1 :: p) a).2
+        ({ (inferExpr R ((st.lookup t.var).2.addCon t.con.1 t.con.2) (1 :: p) a).2 with
             sc := (st.lookup t.var).2.sc }.addCon t.con.1 (!t.con.2)) := St.le_of_eq rfl rfl
-    have h5 := inferExpr_le b ({ (inferExpr ((st.lookup t.var).2.addCon t.con.1 t.con.2) (1 :: p) a).2 with
+    have h5 := inferExpr_le b ({ (inferExpr R ((st.lookup t.var).2.addCon t.con.1 t.con.2) (1 :: p) a).2 with
             sc := (st.lookup t.var).2.sc }.addCon t.con.1 (!t.con.2)) (2 :: p)
     refine St.le_trans (St.le_trans h1 (St.le_trans h2 (St.le_trans h3 (St.le_trans h4 h5)))) ?_
     exact ⟨fun x h => List.mem_append_left _ h, fun h => h⟩
-theorem inferList_le : ∀ (es : List Expr) (st : St) (p : Path) (k : Nat), St.le st (inferList st p k es).2
+  | .call f args, st, p => by
+    simp only [inferExpr]
+    exact St.le_trans (inferList_le args st p 0) ⟨fun x h => List.mem_append_left _ h, fun h => h⟩
+theorem inferList_le : ∀ (es : List Expr) (st : St) (p : Path) (k : Nat), St.le st (inferList R st p k es).2
   | [], st, p, k => by simp only [inferList]; exact St.le_refl st
   | e :: es, st, p, k => by
     simp only [inferList]
@@ -687,6 +926,7 @@ end
 
 
 /-! ## 8. soundness of expression inference -/
+
 
 theorem beq_not_of_false {a b : Bool} (h : false = (a == b)) : (a == !b) = true := by
   cases a <;> cases b <;> simp at h ⊢
@@ -709,10 +949,12 @@ theorem log_lift {lg : RLog} {a b : St} (hle : St.le a b)
   obtain ⟨T', h1, h2⟩ := h n o hn
   exact ⟨T', hle.1 _ h1, h2⟩
 
+section
+variable [hI : ImplOkC impl R]
 mutual
 theorem inferExpr_sound : ∀ (e : Expr) (st : St) (p : Path) (env : Env), Inv env st.sc →
-    (inferExpr st p e).2.flags.none = true →
-    ESound env (inferExpr st p e).2 (inferExpr st p e).1 (evalExpr env p e)
+    (inferExpr R st p e).2.flags.none = true →
+    ESound env (inferExpr R st p e).2 (inferExpr R st p e).1 (evalExpr impl env p e)
   | .lit o, st, p, env, hinv, _ => by
     simp only [inferExpr, evalExpr]
     refine ⟨hinv, fun n o' h => ?_, fun o' h => ?_⟩
@@ -742,7 +984,7 @@ theorem inferExpr_sound : ∀ (e : Expr) (st : St) (p : Path) (env : Env), Inv e
     simp only [inferExpr] at hf ⊢
     obtain ⟨h1, h2, h3⟩ := inferList_sound es st p 0 env hinv hf
     simp only [evalExpr]
-    cases hev : evalList env p 0 es with
+    cases hev : evalList impl env p 0 es with
     | mk r lg =>
       rw [hev] at h2 h3
       cases r with
@@ -765,7 +1007,7 @@ theorem inferExpr_sound : ∀ (e : Expr) (st : St) (p : Path) (env : Env), Inv e
     simp only [inferExpr, flags_or_none] at hf ⊢
     obtain ⟨h1, h2, h3⟩ := inferExpr_sound e st (0 :: p) env hinv hf.1
     simp only [evalExpr]
-    cases hev : evalExpr env (0 :: p) e with
+    cases hev : evalExpr impl env (0 :: p) e with
     | mk r lg =>
       rw [hev] at h2 h3
       cases r with
@@ -795,9 +1037,9 @@ theorem inferExpr_sound : ∀ (e : Expr) (st : St) (p : Path) (env : Env), Inv e
     simp only [inferExpr] at hf ⊢
     -- the states along the way
     have hinv0 : Inv env (st.lookup t.var).2.sc := hinv
-    have hleB := inferExpr_le b ({ (inferExpr ((st.lookup t.var).2.addCon t.con.1 t.con.2) (1 :: p) a).2 with
+    have hleB := inferExpr_le (R := R) b ({ (inferExpr R ((st.lookup t.var).2.addCon t.con.1 t.con.2) (1 :: p) a).2 with
             sc := (st.lookup t.var).2.sc }.addCon t.con.1 (!t.con.2)) (2 :: p)
-    have hfA : (inferExpr ((st.lookup t.var).2.addCon t.con.1 t.con.2) (1 :: p) a).2.flags.none = true :=
+    have hfA : (inferExpr R ((st.lookup t.var).2.addCon t.con.1 t.con.2) (1 :: p) a).2.flags.none = true :=
       hleB.2 hf
     simp only [evalExpr]
     cases ht : evalTest env t with
@@ -815,7 +1057,7 @@ theorem inferExpr_sound : ∀ (e : Expr) (st : St) (p : Path) (env : Env), Inv e
           Inv_addCon _ _ hinv0 (fun o ho => by rw [hox] at ho; cases ho; exact hbv.symm)
         obtain ⟨h1, h2, h3⟩ := inferExpr_sound a _ (1 :: p) env hinvA hfA
         simp only
-        cases hev : evalExpr env (1 :: p) a with
+        cases hev : evalExpr impl env (1 :: p) a with
         | mk r lg =>
           rw [hev] at h2 h3
           have h2' := log_lift (St.le_trans (St.le_of_eq rfl rfl) hleB) h2
@@ -825,8 +1067,8 @@ theorem inferExpr_sound : ∀ (e : Expr) (st : St) (p : Path) (env : Env), Inv e
             obtain ⟨T', hT, hm⟩ := h2' n o h
             exact ⟨T', List.mem_append_left _ hT, hm⟩
           | some oa =>
-            have hm : mem tb oa (unite [(inferExpr ((st.lookup t.var).2.addCon t.con.1 t.con.2) (1 :: p) a).1,
-                (inferExpr ({ (inferExpr ((st.lookup t.var).2.addCon t.con.1 t.con.2) (1 :: p) a).2 with
+            have hm : mem tb oa (unite [(inferExpr R ((st.lookup t.var).2.addCon t.con.1 t.con.2) (1 :: p) a).1,
+                (inferExpr R ({ (inferExpr R ((st.lookup t.var).2.addCon t.con.1 t.con.2) (1 :: p) a).2 with
                   sc := (st.lookup t.var).2.sc }.addCon t.con.1 (!t.con.2)) (2 :: p) b).1]) = true := by
               rw [unite_mem']; simp [h3 oa rfl]
             refine ⟨Inv_join_left _ h1, fun n o h => ?_, fun o h => ?_⟩
@@ -839,15 +1081,15 @@ theorem inferExpr_sound : ∀ (e : Expr) (st : St) (p : Path) (env : Env), Inv e
               subst h
               exact hm
       | false =>
-        have hinvB : Inv env ({ (inferExpr ((st.lookup t.var).2.addCon t.con.1 t.con.2) (1 :: p) a).2 with
+        have hinvB : Inv env ({ (inferExpr R ((st.lookup t.var).2.addCon t.con.1 t.con.2) (1 :: p) a).2 with
             sc := (st.lookup t.var).2.sc }.addCon t.con.1 (!t.con.2)).sc :=
-          Inv_addCon (st := { (inferExpr ((st.lookup t.var).2.addCon t.con.1 t.con.2) (1 :: p) a).2 with
+          Inv_addCon (st := { (inferExpr R ((st.lookup t.var).2.addCon t.con.1 t.con.2) (1 :: p) a).2 with
             sc := (st.lookup t.var).2.sc }) _ _ hinv0 (fun o ho => by
               rw [hox] at ho; cases ho
               exact beq_not_of_false hbv)
         obtain ⟨h1, h2, h3⟩ := inferExpr_sound b _ (2 :: p) env hinvB hf
         simp only
-        cases hev : evalExpr env (2 :: p) b with
+        cases hev : evalExpr impl env (2 :: p) b with
         | mk r lg =>
           rw [hev] at h2 h3
           cases r with
@@ -856,8 +1098,8 @@ theorem inferExpr_sound : ∀ (e : Expr) (st : St) (p : Path) (env : Env), Inv e
             obtain ⟨T', hT, hm⟩ := h2 n o h
             exact ⟨T', List.mem_append_left _ hT, hm⟩
           | some ob =>
-            have hm : mem tb ob (unite [(inferExpr ((st.lookup t.var).2.addCon t.con.1 t.con.2) (1 :: p) a).1,
-                (inferExpr ({ (inferExpr ((st.lookup t.var).2.addCon t.con.1 t.con.2) (1 :: p) a).2 with
+            have hm : mem tb ob (unite [(inferExpr R ((st.lookup t.var).2.addCon t.con.1 t.con.2) (1 :: p) a).1,
+                (inferExpr R ({ (inferExpr R ((st.lookup t.var).2.addCon t.con.1 t.con.2) (1 :: p) a).2 with
                   sc := (st.lookup t.var).2.sc }.addCon t.con.1 (!t.con.2)) (2 :: p) b).1]) = true := by
               rw [unite_mem']; simp [h3 ob rfl]
             refine ⟨Inv_join_right _ h1, fun n o h => ?_, fun o h => ?_⟩
@@ -869,19 +1111,49 @@ theorem inferExpr_sound : ∀ (e : Expr) (st : St) (p : Path) (env : Env), Inv e
             · simp only [Option.some.injEq] at h
               subst h
               exact hm
+  | .call f args, st, p, env, hinv, hf => by
+    simp only [inferExpr] at hf ⊢
+    obtain ⟨h1, h2, _⟩ := inferList_sound args st p 0 env hinv hf
+    simp only [evalExpr]
+    cases hev : evalList impl env p 0 args with
+    | mk r lg =>
+      rw [hev] at h2
+      cases r with
+      | none =>
+        refine ⟨h1, fun n o h => ?_, fun o h => by simp at h⟩
+        obtain ⟨T', hT, hm⟩ := h2 n o h
+        exact ⟨T', List.mem_append_left _ hT, hm⟩
+      | some os =>
+        dsimp only
+        cases hi : impl f os with
+        | none =>
+          refine ⟨h1, fun n o h => ?_, fun o h => by simp at h⟩
+          obtain ⟨T', hT, hm⟩ := h2 n o h
+          exact ⟨T', List.mem_append_left _ hT, hm⟩
+        | some r =>
+          have hm : mem tb r (R.getD f .any) = true := ImplOkC.ok (impl := impl) (R := R) f os r hi
+          refine ⟨h1, fun n o h => ?_, fun o h => ?_⟩
+          · simp only [List.mem_append, List.mem_singleton, Prod.mk.injEq] at h
+            rcases h with h | ⟨rfl, rfl⟩
+            · obtain ⟨T', hT, hm'⟩ := h2 n o h
+              exact ⟨T', List.mem_append_left _ hT, hm'⟩
+            · exact ⟨_, by simp, hm⟩
+          · simp only [Option.some.injEq] at h
+            subst h
+            exact hm
 theorem inferList_sound : ∀ (es : List Expr) (st : St) (p : Path) (k : Nat) (env : Env), Inv env st.sc →
-    (inferList st p k es).2.flags.none = true →
-    LSound env (inferList st p k es).2 (inferList st p k es).1 (evalList env p k es)
+    (inferList R st p k es).2.flags.none = true →
+    LSound env (inferList R st p k es).2 (inferList R st p k es).1 (evalList impl env p k es)
   | [], st, p, k, env, hinv, _ => by
     simp only [inferList, evalList]
     exact ⟨hinv, fun n o h => by simp at h, fun os h => by simp at h; subst h; rfl⟩
   | e :: es, st, p, k, env, hinv, hf => by
     simp only [inferList] at hf ⊢
-    have hle := inferList_le es (inferExpr st (k :: p) e).2 p (k + 1)
+    have hle := inferList_le (R := R) es (inferExpr R st (k :: p) e).2 p (k + 1)
     obtain ⟨h1, h2, h3⟩ := inferExpr_sound e st (k :: p) env hinv (hle.2 hf)
     obtain ⟨g1, g2, g3⟩ := inferList_sound es _ p (k + 1) env h1 hf
     simp only [evalList]
-    cases hev : evalExpr env (k :: p) e with
+    cases hev : evalExpr impl env (k :: p) e with
     | mk r lg =>
       rw [hev] at h2 h3
       have h2' := log_lift hle h2
@@ -889,10 +1161,10 @@ theorem inferList_sound : ∀ (es : List Expr) (st : St) (p : Path) (k : Nat) (e
       | none => exact ⟨g1, h2', fun os h => by simp at h⟩
       | some o =>
         simp only
-        cases hev2 : evalList env p (k + 1) es with
+        cases hev2 : evalList impl env p (k + 1) es with
         | mk r2 lg2 =>
           rw [hev2] at g2 g3
-          have hlog : ∀ n o', (n, o') ∈ lg ++ lg2 → ∃ T', (n, T') ∈ (inferList (inferExpr st (k :: p) e).2 p (k + 1) es).2.log ∧
+          have hlog : ∀ n o', (n, o') ∈ lg ++ lg2 → ∃ T', (n, T') ∈ (inferList R (inferExpr R st (k :: p) e).2 p (k + 1) es).2.log ∧
               mem tb o' T' = true := by
             intro n o' h
             rcases List.mem_append.mp h with h | h
@@ -908,28 +1180,38 @@ theorem inferList_sound : ∀ (es : List Expr) (st : St) (p : Path) (k : Nat) (e
 end
 
 
+end
+
 /-! ## 9. statements -/
 
 mutual
-theorem inferStmt_le : ∀ (s : Stmt) (st : St) (p : Path), St.le st (inferStmt st p s).1
+theorem inferStmt_le : ∀ (s : Stmt) (st : St) (p : Path), St.le st (inferStmt R st p s).1
   | .assign x e, st, p => by
     simp only [inferStmt]
     exact St.le_trans (inferExpr_le e st (0 :: p)) (St.le_of_eq rfl rfl)
   | .ret e, st, p => by
     simp only [inferStmt]
     exact inferExpr_le e st (0 :: p)
+  | .unpack xs e, st, p => by
+    simp only [inferStmt]
+    refine St.le_trans (inferExpr_le (R := R) e st (0 :: p)) ?_
+    obtain ⟨hl, hfl⟩ := assignAll_keep xs (unpackVals (inferExpr R st (0 :: p) e).1 xs.length).1
+      { (inferExpr R st (0 :: p) e).2 with flags := Flags.or (inferExpr R st (0 :: p) e).2.flags (unpackVals (inferExpr R st (0 :: p) e).1 xs.length).2 }
+    refine ⟨fun x h => by rw [hl]; exact h, fun h => ?_⟩
+    rw [hfl] at h
+    exact ((flags_or_none _ _).mp h).1
   | .ifs t body els, st, p => by
     simp only [inferStmt]
     have h1 := St.le_lookup st t.var
     have h2 : St.le (st.lookup t.var).2 ((st.lookup t.var).2.addCon t.con.1 t.con.2) := St.le_of_eq rfl rfl
     have h3 := inferBlock_le body ((st.lookup t.var).2.addCon t.con.1 t.con.2) (1 :: p) 0
-    have h4 : St.le (inferBlock ((st.lookup t.var).2.addCon t.con.1 t.con.2) (1 :: p) 0 body).1
-        ({ (inferBlock ((st.lookup t.var).2.addCon t.con.1 t.con.2) (1 :: p) 0 body).1 with
+    have h4 : St.le (inferBlock R ((st.lookup t.var).2.addCon t.con.1 t.con.2) (1 :: p) 0 body).1
+        ({ (inferBlock R ((st.lookup t.var).2.addCon t.con.1 t.con.2) (1 :: p) 0 body).1 with
             sc := (st.lookup t.var).2.sc }.addCon t.con.1 (!t.con.2)) := St.le_of_eq rfl rfl
-    have h5 := inferBlock_le els ({ (inferBlock ((st.lookup t.var).2.addCon t.con.1 t.con.2) (1 :: p) 0 body).1 with
+    have h5 := inferBlock_le els ({ (inferBlock R ((st.lookup t.var).2.addCon t.con.1 t.con.2) (1 :: p) 0 body).1 with
             sc := (st.lookup t.var).2.sc }.addCon t.con.1 (!t.con.2)) (2 :: p) 0
     exact St.le_trans (St.le_trans h1 (St.le_trans h2 (St.le_trans h3 (St.le_trans h4 h5)))) (St.le_of_eq rfl rfl)
-theorem inferBlock_le : ∀ (ss : List Stmt) (st : St) (p : Path) (k : Nat), St.le st (inferBlock st p k ss).1
+theorem inferBlock_le : ∀ (ss : List Stmt) (st : St) (p : Path) (k : Nat), St.le st (inferBlock R st p k ss).1
   | [], st, p, k => by simp only [inferBlock]; exact St.le_refl st
   | s :: ss, st, p, k => by
     simp only [inferBlock]
@@ -943,14 +1225,16 @@ def SSound (env : Env) (r : St × Bool) (ex : Outcome × RLog) : Prop :=
   (∀ n o, (n, o) ∈ ex.2 → ∃ T', (n, T') ∈ r.1.log ∧ mem tb o T' = true) ∧
   (∀ env', ex.1 = .normal env' → r.2 = true ∧ Inv env' r.1.sc)
 
+section
+variable [hI : ImplOkC impl R]
 mutual
 theorem inferStmt_sound : ∀ (s : Stmt) (st : St) (p : Path) (env : Env), Inv env st.sc →
-    (inferStmt st p s).1.flags.none = true → SSound env (inferStmt st p s) (execStmt env p s)
+    (inferStmt R st p s).1.flags.none = true → SSound env (inferStmt R st p s) (execStmt impl env p s)
   | .assign x e, st, p, env, hinv, hf => by
     simp only [inferStmt] at hf ⊢
-    obtain ⟨h1, h2, h3⟩ := inferExpr_sound e st (0 :: p) env hinv hf
+    obtain ⟨h1, h2, h3⟩ := inferExpr_sound (impl := impl) (R := R) e st (0 :: p) env hinv hf
     simp only [execStmt]
-    cases hev : evalExpr env (0 :: p) e with
+    cases hev : evalExpr impl env (0 :: p) e with
     | mk r lg =>
       rw [hev] at h2 h3
       cases r with
@@ -962,22 +1246,57 @@ theorem inferStmt_sound : ∀ (s : Stmt) (st : St) (p : Path) (env : Env), Inv e
         exact ⟨rfl, Inv_assign x o _ _ h1 (h3 o rfl)⟩
   | .ret e, st, p, env, hinv, hf => by
     simp only [inferStmt] at hf ⊢
-    obtain ⟨_, h2, _⟩ := inferExpr_sound e st (0 :: p) env hinv hf
+    obtain ⟨_, h2, _⟩ := inferExpr_sound (impl := impl) (R := R) e st (0 :: p) env hinv hf
     simp only [execStmt]
-    cases hev : evalExpr env (0 :: p) e with
+    cases hev : evalExpr impl env (0 :: p) e with
     | mk r lg =>
       rw [hev] at h2
       cases r with
       | none => exact ⟨h2, fun env' h => by simp at h⟩
       | some o => exact ⟨h2, fun env' h => by simp at h⟩
+  | .unpack xs e, st, p, env, hinv, hf => by
+    simp only [inferStmt] at hf ⊢
+    obtain ⟨hl, hfl⟩ := assignAll_keep xs (unpackVals (inferExpr R st (0 :: p) e).1 xs.length).1
+      { (inferExpr R st (0 :: p) e).2 with flags := Flags.or (inferExpr R st (0 :: p) e).2.flags (unpackVals (inferExpr R st (0 :: p) e).1 xs.length).2 }
+    rw [hfl] at hf
+    have hf2 := (flags_or_none _ _).mp hf
+    obtain ⟨h1, h2, h3⟩ := inferExpr_sound (impl := impl) (R := R) e st (0 :: p) env hinv hf2.1
+    simp only [execStmt]
+    cases hev : evalExpr impl env (0 :: p) e with
+    | mk r lg =>
+      rw [hev] at h2 h3
+      have h2' : ∀ n o, (n, o) ∈ lg → ∃ T', (n, T') ∈ (assignAll
+          { (inferExpr R st (0 :: p) e).2 with flags := Flags.or (inferExpr R st (0 :: p) e).2.flags (unpackVals (inferExpr R st (0 :: p) e).1 xs.length).2 } xs
+          (unpackVals (inferExpr R st (0 :: p) e).1 xs.length).1).log ∧ mem tb o T' = true := by
+        intro n o h
+        rw [hl]
+        exact h2 n o h
+      cases r with
+      | none => exact ⟨h2', fun env' h => by simp at h⟩
+      | some o =>
+        dsimp only
+        cases hi : iterObj o with
+        | none => exact ⟨h2', fun env' h => by simp at h⟩
+        | some os =>
+          dsimp only
+          by_cases hlen : (os.length == xs.length) = true
+          · simp only [hlen, if_true]
+            refine ⟨h2', fun env' h => ?_⟩
+            simp only [Outcome.normal.injEq] at h
+            subst h
+            refine ⟨rfl, ?_⟩
+            have hR := unpackVals_sound o _ xs.length os (h3 o rfl) hi (by simpa using hlen) hf2.2
+            exact Inv_assignAll xs os _ env _ h1 hR
+          · simp only [hlen, Bool.false_eq_true, if_false]
+            exact ⟨h2', fun env' h => by simp at h⟩
   | .ifs t body els, st, p, env, hinv, hf => by
     simp only [inferStmt] at hf ⊢
     have hinv0 : Inv env (st.lookup t.var).2.sc := hinv
-    have hleB := inferBlock_le els ({ (inferBlock ((st.lookup t.var).2.addCon t.con.1 t.con.2) (1 :: p) 0 body).1 with
+    have hleB := inferBlock_le (R := R) els ({ (inferBlock R ((st.lookup t.var).2.addCon t.con.1 t.con.2) (1 :: p) 0 body).1 with
             sc := (st.lookup t.var).2.sc }.addCon t.con.1 (!t.con.2)) (2 :: p) 0
-    have hfB : (inferBlock ({ (inferBlock ((st.lookup t.var).2.addCon t.con.1 t.con.2) (1 :: p) 0 body).1 with
+    have hfB : (inferBlock R ({ (inferBlock R ((st.lookup t.var).2.addCon t.con.1 t.con.2) (1 :: p) 0 body).1 with
             sc := (st.lookup t.var).2.sc }.addCon t.con.1 (!t.con.2)) (2 :: p) 0 els).1.flags.none = true := hf
-    have hfA : (inferBlock ((st.lookup t.var).2.addCon t.con.1 t.con.2) (1 :: p) 0 body).1.flags.none = true :=
+    have hfA : (inferBlock R ((st.lookup t.var).2.addCon t.con.1 t.con.2) (1 :: p) 0 body).1.flags.none = true :=
       hleB.2 hfB
     simp only [execStmt]
     cases ht : evalTest env t with
@@ -995,14 +1314,14 @@ theorem inferStmt_sound : ∀ (s : Stmt) (st : St) (p : Path) (env : Env), Inv e
         rw [hfa]
         refine ⟨by simp, ?_⟩
         dsimp only
-        cases hfb : (inferBlock ({ (inferBlock ((st.lookup t.var).2.addCon t.con.1 t.con.2) (1 :: p) 0 body).1 with
+        cases hfb : (inferBlock R ({ (inferBlock R ((st.lookup t.var).2.addCon t.con.1 t.con.2) (1 :: p) 0 body).1 with
             sc := (st.lookup t.var).2.sc }.addCon t.con.1 (!t.con.2)) (2 :: p) 0 els).2
         · simpa using hI
         · simpa using Inv_join_left _ hI
       | false =>
-        have hinvB : Inv env ({ (inferBlock ((st.lookup t.var).2.addCon t.con.1 t.con.2) (1 :: p) 0 body).1 with
+        have hinvB : Inv env ({ (inferBlock R ((st.lookup t.var).2.addCon t.con.1 t.con.2) (1 :: p) 0 body).1 with
             sc := (st.lookup t.var).2.sc }.addCon t.con.1 (!t.con.2)).sc :=
-          Inv_addCon (st := { (inferBlock ((st.lookup t.var).2.addCon t.con.1 t.con.2) (1 :: p) 0 body).1 with
+          Inv_addCon (st := { (inferBlock R ((st.lookup t.var).2.addCon t.con.1 t.con.2) (1 :: p) 0 body).1 with
             sc := (st.lookup t.var).2.sc }) _ _ hinv0 (fun o ho => by
               rw [hox] at ho; cases ho
               exact beq_not_of_false hbv)
@@ -1013,11 +1332,11 @@ theorem inferStmt_sound : ∀ (s : Stmt) (st : St) (p : Path) (env : Env), Inv e
         rw [hfb]
         refine ⟨by simp, ?_⟩
         dsimp only
-        cases hfa : (inferBlock ((st.lookup t.var).2.addCon t.con.1 t.con.2) (1 :: p) 0 body).2
+        cases hfa : (inferBlock R ((st.lookup t.var).2.addCon t.con.1 t.con.2) (1 :: p) 0 body).2
         · simpa using hI
         · simpa using Inv_join_right _ hI
 theorem inferBlock_sound : ∀ (ss : List Stmt) (st : St) (p : Path) (k : Nat) (env : Env), Inv env st.sc →
-    (inferBlock st p k ss).1.flags.none = true → SSound env (inferBlock st p k ss) (execBlock env p k ss)
+    (inferBlock R st p k ss).1.flags.none = true → SSound env (inferBlock R st p k ss) (execBlock impl env p k ss)
   | [], st, p, k, env, hinv, _ => by
     simp only [inferBlock, execBlock]
     refine ⟨fun n o h => by simp at h, fun env' h => ?_⟩
@@ -1027,12 +1346,12 @@ theorem inferBlock_sound : ∀ (ss : List Stmt) (st : St) (p : Path) (k : Nat) (
   | s :: ss, st, p, k, env, hinv, hf => by
     simp only [inferBlock] at hf ⊢
     simp only [execBlock]
-    cases hf1 : (inferStmt st (k :: p) s).2 with
+    cases hf1 : (inferStmt R st (k :: p) s).2 with
     | false =>
       rw [hf1] at hf
       simp only [Bool.false_eq_true, if_false] at hf ⊢
       obtain ⟨h2, h3⟩ := inferStmt_sound s st (k :: p) env hinv hf
-      cases hex : execStmt env (k :: p) s with
+      cases hex : execStmt impl env (k :: p) s with
       | mk out lg =>
         rw [hex] at h2 h3
         cases out with
@@ -1045,10 +1364,10 @@ theorem inferBlock_sound : ∀ (ss : List Stmt) (st : St) (p : Path) (k : Nat) (
     | true =>
       rw [hf1] at hf
       simp only [if_true] at hf ⊢
-      have hle := inferBlock_le ss (inferStmt st (k :: p) s).1 p (k + 1)
+      have hle := inferBlock_le (R := R) ss (inferStmt R st (k :: p) s).1 p (k + 1)
       obtain ⟨h2, h3⟩ := inferStmt_sound s st (k :: p) env hinv (hle.2 hf)
       have h2' := log_lift hle h2
-      cases hex : execStmt env (k :: p) s with
+      cases hex : execStmt impl env (k :: p) s with
       | mk out lg =>
         rw [hex] at h2' h3
         cases out with
@@ -1061,6 +1380,8 @@ theorem inferBlock_sound : ∀ (ss : List Stmt) (st : St) (p : Path) (k : Nat) (
           · exact g2 n o h
         | returned o => exact ⟨h2', fun env' h => by simp at h⟩
         | raised => exact ⟨h2', fun env' h => by simp at h⟩
+end
+
 end
 
 theorem Inv_init : ∀ (ts : List Ty) (os : List Obj) (k : Nat), argsOk ts os = true →
